@@ -147,6 +147,9 @@ def timer_monitor(case, line):
             passctr, last = int(ev[1:]), None
         elif ev[0] == "a":
             passctr = None
+        elif ev[0] == "n":
+            if not -1 <= int(ev[1:]) <= 2**31 - 1:
+                return "uv__next_timeout() = %s, outside [-1, INT_MAX] (the poll bound is clamped)" % ev[1:]
         elif ev[0] == "f":
             i, tok, now, due, seq, at, req = [int(x) for x in ev[1:].split(",")]
             if now < due:
